@@ -1,15 +1,64 @@
 (** C02 -- TL1 readers accept only canonical encodings.  Property theorems only. *)
 From TLV Require Import Prim.PrimModel Prim.PrimProofs Tl1.Tl1Model Tl1.Tl1Proofs Tl1.Tl1Canon Tl1.Tl1Dict.
+From TLV Require Import Tl1.Tl1CanonDict.
 Open Scope N_scope.
 
-(** For every well-formed schema without map-backed dictionaries, every type (bare or boxed),
-    every nat environment, every byte string and every fuel: if the reader accepts, the input
-    is exactly (what the writer writes for the decoded value) ++ (the unread rest).
-    PARTIAL with respect to the property text: types containing map-backed dictionaries are
-    excluded here (their re-emission is sorted by key with duplicates removed); for those the
-    model's dictionary semantics is [dict_insert] (Tl1Model.v), proved to rebuild sorted
-    duplicate-free input exactly ([dict_fold_sorted]) and compared with the generated code on
-    every run (corr:C02:accept). *)
+(** THE property, for EVERY well-formed schema -- map-backed dictionaries anywhere, nested at any
+    depth --, every type (bare or boxed), every nat environment, every byte string, every fuel and
+    both settings of the length-sanity option: if the reader accepts, the input is
+    (accepted prefix [pfx]) ++ (unread rest), the writer accepts the decoded value and writes
+    [pfx'], and [pfx] and [pfx'] are related by [dict_equiv] (Tl1CanonDict.v, inductive [DEQ]):
+    same constructor tags, same primitive values, same counts of vectors / tuples, and inside each
+    dictionary [pfx] lists received entries [l] in any order where [pfx'] lists [pnorm kp l] --
+    the same entries sorted by the writer's key order, an entry dropped iff a later received entry
+    has the same key (count = number of survivors).  This is the property text including its
+    dictionary exception; nothing is excluded. *)
+Theorem C02_canonical_modulo_dict : forall san s, wf_schema s = true ->
+  forall fuel t bare ps b v rest,
+    bytes_ok b ->
+    dec1 fuel san s t bare ps b = Some (Ok (v, rest)) ->
+    exists pfx pfx', b = pfx ++ rest /\ enc1 false s t bare ps v = Some pfx' /\ dict_equiv s t bare ps pfx pfx'.
+Proof. exact dec1_canonical_modulo_dict. Qed.
+Print Assumptions C02_canonical_modulo_dict.
+
+(** [dict_equiv] allows a difference ONLY inside dictionaries: on a schema without them it is equality *)
+Theorem C02_dict_equiv_is_equality_without_dictionaries : forall s t bare ps x y,
+  no_dict s = true -> dict_equiv s t bare ps x y -> x = y.
+Proof. exact dict_equiv_no_dict. Qed.
+Print Assumptions C02_dict_equiv_is_equality_without_dictionaries.
+
+(** every accepted input decodes to a value the writer accepts (no accepted input is a dead end) *)
+Theorem C02_accepted_input_reencodable : forall san s, wf_schema s = true ->
+  forall fuel t bare ps b v rest,
+    bytes_ok b ->
+    dec1 fuel san s t bare ps b = Some (Ok (v, rest)) ->
+    exists pfx pfx', b = pfx ++ rest /\ enc1 false s t bare ps v = Some pfx'.
+Proof. exact dec1_reencodable. Qed.
+Print Assumptions C02_accepted_input_reencodable.
+
+(** the re-emitted bytes are canonical in the strict sense: followed by anything they are read back
+    (the fuel that read the original input is enough) to the same value, and they are what the
+    writer writes for it -- read-then-write is the identity on them.  With the reader's
+    length-sanity option on, the strict writer must accept the value: a count followed by fewer
+    than 4 bytes per element is refused by that reader whoever wrote it ([C02_ex_sanity_limit]). *)
+Theorem C02_canonical_form_fixed : forall san s, wf_schema s = true ->
+  forall fuel t bare ps b v rest,
+    bytes_ok b ->
+    dec1 fuel san s t bare ps b = Some (Ok (v, rest)) ->
+    exists pfx pfx', b = pfx ++ rest /\ enc1 false s t bare ps v = Some pfx' /\
+      forall san' fuel' rest', (fuel <= fuel')%nat ->
+        (san' = true -> enc1 true s t bare ps v <> None) ->
+        dec1 fuel' san' s t bare ps (pfx' ++ rest') = Some (Ok (v, rest')).
+Proof. exact dec1_canonical_form_fixed. Qed.
+Print Assumptions C02_canonical_form_fixed.
+
+(** The special case without map-backed dictionaries: the accepted prefix IS what the writer
+    writes.  Kept under its historical name; it is no longer the strongest statement -- it is the
+    corollary [dec1_canonical_from_modulo_dict] of [C02_canonical_modulo_dict] and
+    [C02_dict_equiv_is_equality_without_dictionaries] (and is still proved directly in Tl1Canon.v).
+    Nothing of the property text is left PARTIAL: schemas with dictionaries are covered by
+    [C02_canonical_modulo_dict]; the model's dictionary semantics [dict_insert] (Tl1Model.v) is
+    compared with the generated code on every run (corr:C02:accept). *)
 Theorem C02_canonical_partial : forall san s, wf_schema s = true -> no_dict s = true ->
   forall fuel t bare ps b v rest,
     bytes_ok b ->
@@ -18,7 +67,23 @@ Theorem C02_canonical_partial : forall san s, wf_schema s = true -> no_dict s = 
 Proof. intros san s Hwf Hnd fuel t bare ps b v rest Hb H. exact (dec1_canonical san s Hwf Hnd fuel t bare ps b v rest Hb H). Qed.
 Print Assumptions C02_canonical_partial.
 
-(** the dictionary part that is proved: strictly sorted entries are rebuilt exactly *)
+Theorem C02_canonical_without_dictionaries_is_corollary : forall san s, wf_schema s = true -> no_dict s = true ->
+  forall fuel t bare ps b v rest,
+    bytes_ok b ->
+    dec1 fuel san s t bare ps b = Some (Ok (v, rest)) ->
+    exists pfx, b = pfx ++ rest /\ enc1 false s t bare ps v = Some pfx.
+Proof. intros san s Hwf Hnd fuel t bare ps b v rest Hb H. exact (dec1_canonical_from_modulo_dict san s Hwf Hnd fuel t bare ps b v rest Hb H). Qed.
+Print Assumptions C02_canonical_without_dictionaries_is_corollary.
+
+(** whatever entries were received (any order, any duplicates, keys of ANY shape as long as they
+    are all of one value constructor -- which is what one element reader returns): the decoded
+    dictionary is strictly sorted by the writer's key order, so the writer accepts it *)
+Theorem C02_dict_decoded_sorted_any_keys : forall kp c es,
+  kc_uniform c es -> keys_sorted kp (fold_left (fun a e => dict_insert kp e a) es []) = true.
+Proof. exact dict_norm_sorted. Qed.
+Print Assumptions C02_dict_decoded_sorted_any_keys.
+
+(** strictly sorted entries are rebuilt exactly *)
 Theorem C02_dict_sorted_input_unchanged : forall kp es,
   keys_sorted kp es = true -> fold_left (fun a e => dict_insert kp e a) es [] = es.
 Proof. intros kp es H. exact (dict_fold_sorted kp es [] H). Qed.
@@ -102,3 +167,63 @@ Example C02_ex_dict :
      VStruct [Some (VNum 5); Some (VNum 3)]] []
   = [VStruct [Some (VNum 4294967295); Some (VNum 2)]; VStruct [Some (VNum 5); Some (VNum 3)]].
 Proof. vm_compute. reflexivity. Qed.
+
+(** Non-vacuity with dictionaries, one nested in the other: 5 = map string -> (map int -> string).
+    The input lists the outer keys in the order "b", "a" and the inner dictionary of "b" has the
+    entries 5, -1, 5 (unsorted, duplicate key 5); [9] is not read. *)
+Definition exd_schema : schema :=
+  [ TPrim PInt; TPrim PString;
+    TStruct 100 [mkField 0 true None []; mkField 1 true None []];
+    TDict PInt (mkField 2 true None []);
+    TStruct 101 [mkField 1 true None []; mkField 3 true None []];
+    TDict PString (mkField 4 true None []) ].
+Definition exd_in : bytes :=
+  [2;0;0;0;  1;98;0;0;  3;0;0;0;  5;0;0;0; 1;120;0;0;  255;255;255;255; 1;121;0;0;  5;0;0;0; 1;122;0;0;
+             1;97;0;0;  0;0;0;0].
+Definition exd_val : value :=
+  VArr [VStruct [Some (VStr [97]); Some (VArr [])];
+        VStruct [Some (VStr [98]); Some (VArr [VStruct [Some (VNum 4294967295); Some (VStr [121])];
+                                               VStruct [Some (VNum 5); Some (VStr [122])]])]].
+Definition exd_out : bytes :=
+  [2;0;0;0;  1;97;0;0;  0;0;0;0;
+             1;98;0;0;  2;0;0;0;  255;255;255;255; 1;121;0;0;  5;0;0;0; 1;122;0;0].
+
+Example C02_ex_nested_dict : wf_schema exd_schema = true /\ no_dict exd_schema = false /\
+  dec1 9 true exd_schema 5 true [] (exd_in ++ [9]) = Some (Ok (exd_val, [9])) /\
+  enc1 false exd_schema 5 true [] exd_val = Some exd_out /\
+  enc1 true exd_schema 5 true [] exd_val = Some exd_out /\
+  dec1 9 true exd_schema 5 true [] (exd_out ++ [7; 7]) = Some (Ok (exd_val, [7; 7])) /\
+  lenN exd_out <? lenN exd_in = true.
+Proof. vm_compute. repeat split; reflexivity. Qed.
+
+(** the theorem instantiated: the accepted bytes and the re-emitted bytes of the example are related *)
+Example C02_ex_dict_equiv : dict_equiv exd_schema 5 true [] exd_in exd_out.
+Proof.
+  destruct (C02_canonical_modulo_dict true exd_schema eq_refl 9 5%nat true [] (exd_in ++ [9]) exd_val [9])
+    as [pfx [pfx' [E [He Hq]]]].
+  - apply Forall_forall. intros x Hx. unfold byte_ok.
+    assert (Hb : bytes_okb (exd_in ++ [9]) = true) by (vm_compute; reflexivity).
+    unfold bytes_okb in Hb. rewrite forallb_forall in Hb. specialize (Hb x Hx). now apply N.ltb_lt.
+  - vm_compute. reflexivity.
+  - apply app_inv_tail in E. subst pfx. vm_compute in He. injection He as <-. exact Hq.
+Qed.
+
+(** why [C02_canonical_form_fixed] asks for the strict writer when the length-sanity option is on:
+    6 = map nat -> vector of empty structs.  Received: key 1 -> [()] then key 0 -> []; accepted under
+    the option because 8 bytes follow the inner count 1.  Re-emitted sorted, the count 1 is last:
+    the plain writer writes it, the reader without the option reads it back, the reader with the
+    option refuses it (as it refuses it whoever wrote it: C01's strict writer refuses too). *)
+Definition exs_schema : schema :=
+  [ TPrim PNat; TStruct 7 []; TArray AVector (mkField 1 true None []);
+    TStruct 9 [mkField 0 true None []; mkField 2 true None []];
+    TDict PNat (mkField 3 true None []) ].
+Example C02_ex_sanity_limit :
+  let v := VArr [VStruct [Some (VNum 0); Some (VArr [])]; VStruct [Some (VNum 1); Some (VArr [VStruct []])]] in
+  let out := [2;0;0;0;  0;0;0;0; 0;0;0;0;  1;0;0;0; 1;0;0;0] in
+  wf_schema exs_schema = true /\
+  dec1 9 true exs_schema 4 true [] [2;0;0;0;  1;0;0;0; 1;0;0;0;  0;0;0;0; 0;0;0;0] = Some (Ok (v, [])) /\
+  enc1 false exs_schema 4 true [] v = Some out /\
+  enc1 true exs_schema 4 true [] v = None /\
+  dec1 9 false exs_schema 4 true [] out = Some (Ok (v, [])) /\
+  dec1 9 true exs_schema 4 true [] out = Some Eof.
+Proof. vm_compute. repeat split; reflexivity. Qed.
